@@ -213,6 +213,11 @@ def metric_ranking_verdict(ci: ClassInfo, fi: FuncInfo, node: ast.AST, which: st
 
 
 def run(repo: Repo, rep: Report, tier: str) -> None:
+    if tier == "thorough":
+        from .c15 import tabulate_demodulators
+
+        tabulate_demodulators(repo, rep, "HARD-NEAREST", "hard")
+        tabulate_demodulators(repo, rep, "LLR-SIGN", "soft")
     demods = [c for c in registered(repo, "register_demodulator") if c.name not in SKIP]
     n_soft = n_hard = n_scale = 0
     for ci in demods:
